@@ -10,6 +10,22 @@ Contract on ExplorerScriptSsbDecompiler(infos, ops, coros, ...).convert() for ev
   (5) per routine r:  equiv(sem(esast.parse(text)), entry r, machine(R), entry r) is None -- the text *read according to the
       language specification* (spec/sem.py), independent of the compiler, so that a compiler defect cannot hide a decompiler
       defect (signature prefix `C02:text-semantics`).  Skipped for SsbScript fallback output (not ExplorerScript) and counted.
+
+Signatures (one per failure class):
+  C02:convert-raises:<ExceptionType>@<file:function that raised>[<normalised message>]      (same classes as C06)
+  C02:recompile-rejects:<exception signature>:<shape token of the input>
+  C02:recompiled-header:<symptom>:<shape>
+  C02:{recompiled-behaviour|text-semantics}:differs-{at-routine-entry|later}:{first-op-jump|call}
+        inputs with a routine starting with a Jump / with Call ops: what the text does instead is arbitrary, only the place is named
+  C02:{...}:printed-as:<op X>-comes-back-as-<op Y>       two ops of one special-syntax family confused (independent of the shape)
+  C02:{...}:{at-routine-entry|later}:<what differs>:<shape>      everything else
+  C02:{...}:op-free-cycle:<shape>                         the text can loop without performing anything
+The shape token (props/_ssb_common.shape_token) is the first feature of a fixed priority list that the input has (call, first-op-jump,
+cross-jump-to-..., case-without-switch, jump-targets-case-op, switch-without-case, ..., backward-jump, ..., forward-jump).
+
+Interpretation choices: dungeon-mode integers and the DungeonModeConstants handed to the decompiler denote the same parameter
+(`flag_SetDungeonMode`, `Case` under `SwitchDungeonMode`); the reference semantics refuses `JumpCommon`/`Destroy` written as plain
+operations - that is a limitation of spec/sem.py, such texts are only judged through the compiler.
 """
 from __future__ import annotations
 
@@ -61,17 +77,23 @@ def _family(name: str) -> str:
 CHAOS_TOKENS = ("first-op-jump", "call")
 
 
-def behaviour_symptom(prefix: str, path: list, shape: str) -> str:
-    """Signature part for a behavioural difference.
+def behaviour_symptom(prefix: str, path: list | None, shape: str) -> str:
+    """Signature part for a behavioural difference (path None: the text can loop without performing anything).
     * inputs with a routine starting with a Jump, or with Call ops: whatever follows is arbitrary -> only where it differs + the shape;
-    * two ops with special syntax confused, or the same op with other parameters: the op names are the symptom, independent of shape;
+    * two ops of the same special-syntax family confused, or the same op with other parameters: the op names are the symptom,
+      independent of the shape;
     * otherwise where + what + shape."""
+    if path is None:
+        return f"{prefix}:differs-later:{shape}" if shape in CHAOS_TOKENS else f"{prefix}:op-free-cycle:{shape}"
     where, what = mismatch_class(path).split(":", 1)
     if shape in CHAOS_TOKENS:
         return f"{prefix}:differs-{where}:{shape}"
-    if what.startswith("same-op-other-parameter") or (("-instead-of-" in what) and not what.startswith("stops") and "*" not in what and "(" not in what and "plain-op" not in what):
+    if what.startswith(("same-op-other-parameter", "printed-as:")):
         return f"{prefix}:{what}"
     return f"{prefix}:{where}:{what}:{shape}"
+
+
+_SUPER = {"Branch*": "branch", "Case*": "case", "CaseScenario": "case", "flag_*": "flag", "Switch*": "switch", "message_Switch*": "msw", "ctx-op": "ctx"}
 
 
 def mismatch_class(path: list) -> str:
@@ -90,8 +112,8 @@ def mismatch_class(path: list) -> str:
         what = f"stops({ll[0]})-where-input-continues"
     elif rk == "stop":
         what = f"continues-where-input-stops({rl[0]})"
-    elif _family(ll[0]) == _family(rl[0]) and _family(ll[0]) in ("flag_*", "Branch*", "Case*", "Switch*", "message_Switch*", "ctx-op"):
-        what = f"{ll[0]}-instead-of-{rl[0]}"  # two ops with special syntax: the names themselves are the symptom
+    elif lk == rk and _SUPER.get(_family(ll[0])) is not None and _SUPER.get(_family(ll[0])) == _SUPER.get(_family(rl[0])) and ll[0] != rl[0]:
+        what = f"printed-as:{rl[0]}-comes-back-as-{ll[0]}"  # two ops of one special-syntax family: the names themselves are the symptom
     elif _family(ll[0]) != _family(rl[0]):
         what = f"{_family(ll[0])}-instead-of-{_family(rl[0])}"
     else:
@@ -134,7 +156,7 @@ def check(rs: dict) -> tuple[list[tuple[str, str, str, Any]], dict]:
                     try:
                         p = equiv(n_out, e_out[r], n_in, e_in[r])
                     except OpFreeCycle:
-                        out.append((CONTRACT, f"recompiled-behaviour:op-free-cycle:{shape}", f"routine {r}: the recompiled routine can loop through Jump ops only", text))
+                        out.append((CONTRACT, behaviour_symptom("recompiled-behaviour", None, shape), f"routine {r}: the recompiled routine can loop through Jump ops only", text))
                         break
                     if p is not None:
                         out.append((CONTRACT, behaviour_symptom("recompiled-behaviour", p, shape), f"routine {r}: " + describe_path(p) + "  (LEFT = recompiled text, RIGHT = input)", text))
@@ -191,7 +213,7 @@ def _sem_check(es: K.EsResult, text: str, n_in, e_in, shape: str, stats: dict) -
         try:
             p = equiv(nodes, entry, n_in, e_in[r])
         except OpFreeCycle:
-            out.append((CONTRACT_SEM, f"text-semantics:op-free-cycle:{shape}", f"routine {r}: the text can loop without performing anything", text))
+            out.append((CONTRACT_SEM, behaviour_symptom("text-semantics", None, shape), f"routine {r}: the text can loop without performing anything", text))
             break
         if p is not None:
             out.append((CONTRACT_SEM, behaviour_symptom("text-semantics", p, shape), f"routine {r}: " + describe_path(p) + "  (LEFT = text by language spec, RIGHT = input)", text))
